@@ -33,6 +33,19 @@ One constructor of `Norm` per normalisation class, one `def` per C++ function th
                          called by `apply/undo` of every class except `TrivialBinNormalisation` and `ChainedBinNormalisation`
                          on related viewgrams, and by the whole-data loops of all of them).
 * `Norm.trivial`         `TrivialBinNormalisation` (src/include/stir/recon_buildblock/TrivialBinNormalisation.h).
+* `CompObj`, `CompStep`  ONE `BinNormalisationPETFromComponents` object through several `allocate()` / `set_up()` calls
+                         (src/recon_buildblock/BinNormalisationPETFromComponents.cxx:69-108 `set_up`: `error` without allocation, base-class
+                         `set_up`, `_is_trivial = …`, `create_proj_data()` — both UNCONDITIONALLY at every call; :118-175 `allocate`;
+                         :110-115 `is_trivial`): the state is what `apply/undo/get_bin_efficiency/is_trivial` read
+                         (`_already_allocated`, `_already_set_up`, `_is_trivial`, `invnorm_proj_data_sptr`).
+* `CalibObj`             ONE `BinNormalisationWithCalibration` object through `set_calibration_factor` (resets `_already_set_up`,
+                         src/recon_buildblock/BinNormalisationWithCalibration.cxx:86-91), `set_radionuclide` (:105-109, does not) and
+                         `set_up` (:57-65: `_calib_decay_branching_ratio = calibration_factor * get_branching_ratio()`,
+                         `get_branching_ratio` :93-103 gives 1 for a ratio `<= 0`).
+* `slab`, `boxInterval`, `acfBox`  the expectation side of the clause "attenuation correction factors … are the exponentials of its line
+                         integrals": for a uniform box-shaped attenuation map (all planes) the line integral along the LOR from `p` to `q`
+                         is `μ × (length of the part of the LOR inside the box)`, computed by clipping the parameter interval `[0,1]` of
+                         `p + t (q - p)` against the two slabs.  No matrix rows, no projector, no voxel size enter.
 * `applyData`, `applyGroups`, … the whole-`ProjData` loops `BinNormalisation::apply/undo(ProjData&, symmetries)`
                          (src/recon_buildblock/BinNormalisation.cxx:123-226): for every basic view/segment and TOF position get the
                          related viewgrams, normalise them, write them back.
@@ -275,6 +288,128 @@ def ownCheck : UseTree → Bool
 /-- does `apply/undo(ProjData&, symmetries)` run without `error`?  (`check(ProjDataInfo)`, `check(ExamInfo)`, then the
     related-viewgrams version for every group) -/
 def useWhole (examEq : Bool) (t : UseTree) : Bool := ownCheck t && examEq && useRV t
+
+/-! ### one object through several `set_up` calls -/
+
+/-- what `apply/undo/get_bin_efficiency/is_trivial` of ONE `BinNormalisationPETFromComponents` object read:
+    `_already_allocated`, `_already_set_up`, `_is_trivial`, and the efficiency data `invnorm_proj_data_sptr` built by
+    `create_proj_data` (meaningless before the first `set_up`).  The component arrays themselves are not part of this state:
+    nothing but `set_up` reads them, and `set_up` is given them (as they are at the moment of the call, looked up for the
+    geometry of the call) as a `Components` value. -/
+structure CompObj (K : Type) where
+  allocated : Bool
+  setUpDone : Bool
+  trivialFlag : Bool
+  invnorm : Bin → K
+
+/-- the default constructor (`set_defaults`) -/
+def CompObj.new : CompObj K := ⟨false, false, false, fun _ => 0⟩
+
+/-- `allocate(…)` (:118-175): (re)sizes the arrays, `_already_allocated = true`; neither `_already_set_up` nor the efficiency
+    data of a previous `set_up` are touched -/
+def CompObj.allocate (o : CompObj K) : CompObj K := { o with allocated := true }
+
+/-- `set_up(exam_info, proj_data_info)` (:69-108) for a geometry that `create_proj_data` accepts (`componentsSetUp`):
+    `error` without allocation (nothing changed); otherwise `_already_set_up = true`, `_is_trivial` is recomputed from the
+    arrays and `create_proj_data()` rebuilds the efficiency data from them — whatever the object held before -/
+def CompObj.setUp (tol : K) (o : CompObj K) (c : Components K) : Option (CompObj K) :=
+  if o.allocated then some { o with setUpDone := true, trivialFlag := c.isTrivial tol, invnorm := c.invnorm } else none
+
+/-- `is_trivial()` (:110-115): `error` before `set_up` -/
+def CompObj.isTrivial (o : CompObj K) : Option Bool := if o.setUpDone then some o.trivialFlag else none
+
+/-- `get_bin_efficiency(bin)` (:233-239) (before the first `set_up` the C++ dereferences a null pointer; `none` here) -/
+def CompObj.reported (o : CompObj K) (b : Bin) : Option K := if o.setUpDone then some (o.invnorm b) else none
+
+/-- `undo(RelatedViewgrams&)` (:224-231) for one bin: `check()` then multiply with the stored efficiency data -/
+def CompObj.undo (o : CompObj K) (b : Bin) (v : K) : Option K := if o.setUpDone then some (v * o.invnorm b) else none
+
+/-- `apply(RelatedViewgrams&)` (:205-222) for one bin: `check()` then `divide(…, 0.F)` by the stored efficiency data -/
+def CompObj.apply (o : CompObj K) (b : Bin) (v : K) : Option K := if o.setUpDone then divide0 v (o.invnorm b) else none
+
+/-- the calls that change such an object (writing into `crystal_efficiencies()` / `geometric_factors()` / `block_factors()`
+    changes only what the next `setUp` is given) -/
+inductive CompStep (K : Type) where
+  | allocate
+  | setUp (c : Components K)
+
+/-- a history of calls; `none` as soon as one of them calls `error` -/
+def CompObj.run (tol : K) : CompObj K → List (CompStep K) → Option (CompObj K)
+  | o, [] => some o
+  | o, .allocate :: r => CompObj.run tol o.allocate r
+  | o, .setUp c :: r => (o.setUp tol c).bind fun o' => CompObj.run tol o' r
+
+/-- ONE `BinNormalisationWithCalibration` object: `calibration_factor`, the branching ratio of `radionuclide`,
+    `_already_set_up`, and `_calib_decay_branching_ratio` (computed by `set_up` only) -/
+structure CalibObj (K : Type) where
+  calibration : K
+  branching : K
+  setUpDone : Bool
+  stored : K
+
+/-- `set_defaults`: calibration factor 1; a default `Radionuclide` has no known branching ratio (→ 1) -/
+def CalibObj.new : CalibObj K := ⟨1, 1, false, 0⟩
+
+/-- `set_calibration_factor` (:86-91): also resets `_already_set_up` -/
+def CalibObj.setCalibration (o : CalibObj K) (c : K) : CalibObj K := { o with calibration := c, setUpDone := false }
+
+/-- `set_radionuclide` (:105-109) as seen through `get_branching_ratio` (:93-103: a ratio `<= 0` counts as 1);
+    `_already_set_up` and the stored product are NOT touched -/
+def CalibObj.setRadionuclide (o : CalibObj K) (br : K) : CalibObj K := { o with branching := if 0 < br then br else 1 }
+
+/-- `set_up` (:57-65) -/
+def CalibObj.setUp (o : CalibObj K) : CalibObj K := { o with setUpDone := true, stored := o.calibration * o.branching }
+
+/-- `get_bin_efficiency` (BinNormalisationWithCalibration.h:66) with the uncalibrated efficiency `u` of the subclass:
+    `get_calib_decay_branching_ratio_factor` calls `error` unless set up -/
+def CalibObj.reported (o : CalibObj K) (u : Bin → K) (b : Bin) : Option K := if o.setUpDone then fdiv (u b) o.stored else none
+
+/-- base-class `undo` (BinNormalisation.cxx:107-120) -/
+def CalibObj.undo (o : CalibObj K) (u : Bin → K) (b : Bin) (v : K) : Option K :=
+  (o.reported u b).bind fun e => some (v * e)
+
+/-- base-class `apply` (BinNormalisation.cxx:91-105) -/
+def CalibObj.apply (floor : K) (o : CalibObj K) (u : Bin → K) (b : Bin) (v : K) : Option K :=
+  (o.reported u b).bind fun e => fdiv v (cmax floor e)
+
+/-- the calls that change such an object -/
+inductive CalibStep (K : Type) where
+  | setCalibration (c : K)
+  | setRadionuclide (br : K)
+  | setUp
+
+/-- a history of calls (none of them can fail) -/
+def CalibObj.run : CalibObj K → List (CalibStep K) → CalibObj K
+  | o, [] => o
+  | o, .setCalibration c :: r => CalibObj.run (o.setCalibration c) r
+  | o, .setRadionuclide br :: r => CalibObj.run (o.setRadionuclide br) r
+  | o, .setUp :: r => CalibObj.run o.setUp r
+
+/-! ### line integral of a uniform box along a line of response (no matrix rows) -/
+
+/-- `std::min(a, b)` is `(b < a) ? b : a` -/
+def cmin (a b : K) : K := if b < a then b else a
+
+/-- restrict the parameter interval `I` of the line `p + t·d` (one coordinate) to `lo ≤ p + t·d ≤ hi`;
+    `(1, 0)` is the empty interval -/
+def slab (p d lo hi : K) (I : K × K) : K × K :=
+  if 0 < d then (cmax I.1 ((lo - p) / d), cmin I.2 ((hi - p) / d))
+  else if d < 0 then (cmax I.1 ((hi - p) / d), cmin I.2 ((lo - p) / d))
+  else if p < lo ∨ hi < p then (1, 0) else I
+
+/-- the parameters `t ∈ [0,1]` for which the point `p + t (q - p)` of the LOR lies in `[x0,x1] × [y0,y1]` -/
+def boxInterval (px py qx qy x0 x1 y0 y1 : K) : K × K :=
+  slab py (qy - py) y0 y1 (slab px (qx - px) x0 x1 (0, 1))
+
+/-- fraction of the LOR from `p` to `q` that lies inside the box -/
+def boxFraction (px py qx qy x0 x1 y0 y1 : K) : K :=
+  let I := boxInterval px py qx qy x0 x1 y0 y1
+  if I.1 < I.2 then I.2 - I.1 else 0
+
+/-- attenuation correction factor of a map that is `μ` (cm^-1) inside the box (all planes) and 0 outside, for the LOR from
+    `p` to `q` of length `len` (mm, in 3D): `E (μ/10 × len × fraction inside)` -/
+def acfBox (E : K → K) (mu len px py qx qy x0 x1 y0 y1 : K) : K :=
+  E (mu / ten * (len * boxFraction px py qx qy x0 x1 y0 y1))
 
 /-! ### whole data sets -/
 
